@@ -10,7 +10,9 @@
 (*                                                                         *)
 (* Encode event:  X2 (matrix fitted, entries doubled), T2 (matrix          *)
 (*   transformed), cats (indices as passed), fit in {ok, err, panic},      *)
-(*   status in {ok, err, panic, none} of transform, out2 / outExact, and   *)
+(*   status in {ok, err, panic, none} of transform, out2 / outExact, Tnz / *)
+(*   outnz (positions of negative zeros in T2 / out2, see OneHot.tla), ty  *)
+(*   (f64, f32: DenseMatrix; nd64: column-major ndarray::Array2), and      *)
 (*   for replayed model inputs hasExpect / expect2 (the model's matrix).   *)
 (* Decision table (first matching row), straight from the statement:       *)
 (*   a categorical column holds a non-integer      fit must be "err"       *)
@@ -38,12 +40,13 @@ VARIABLES l, nbad, hits
 vars == <<l, nbad, hits>>
 
 (* ---- Encode ---- *)
-OneHotClause(X, tab, idx, out) ==
+OneHotClause(X, tab, idx, out, xnz, onz) ==
     IF ~ShapeOK(X, tab, out) THEN "Shape"
     ELSE IF ~PassThroughOK(X, tab, idx, out) THEN "PassThrough"
     ELSE IF ~BlocksOK(X, tab, idx, out) THEN "Blocks"
+    ELSE IF ~PassThroughSignOK(X, tab, idx, xnz, onz) THEN "PassThroughSignOfZero"
     ELSE ""
-OneHotClause1(X, tab, out) == OneHotClause(X, tab, NewIdxOf(NCols(X), tab), out)
+OneHotClause1(X, tab, out, xnz, onz) == OneHotClause(X, tab, NewIdxOf(NCols(X), tab), out, xnz, onz)
 
 Tagged(c, X, cats, out) ==
     IF c # "" /\ MisIndexedX(X, cats) /\ out = AsBuiltEncode(X, cats)
@@ -68,7 +71,7 @@ EncodeVerdict(e, cats, class) ==
     ELSE IF class = "Unconstrained" THEN ""
     ELSE IF e.status # "ok" THEN "TransformSucceeds"
     ELSE IF ~e.outExact THEN "OutputValues"
-    ELSE Tagged(OneHotClause1(e.X2, CatTable(e.X2, cats), e.out2), e.X2, cats, e.out2)
+    ELSE Tagged(OneHotClause1(e.X2, CatTable(e.X2, cats), e.out2, Range(e.Tnz), Range(e.outnz)), e.X2, cats, e.out2)
 
 (* non-trivial layouts in the sense of DESIGN.md: two categorical columns followed by a
    further column, or a single-category column, or indices not passed in ascending order *)
@@ -85,7 +88,8 @@ ObsCore(o) == [num |-> o.num, getNum |-> o.getNum, ordinal |-> o.ordinal, ohSome
                oneHot |-> o.oneHot, getCat |-> o.getCat, invUnit |-> o.invUnit, invOH |-> o.invOH]
 
 Hit(h, name) == [h EXCEPT ![name] = @ + 1]
-HitNames == {"Encode", "EncodeNonTrivial", "FitErr", "Unseen", "Unconstrained", "Mapper",
+HitNames == {"Encode", "EncodeNonTrivial", "FitErr", "Unseen", "Unconstrained", "NegZeroPassThrough", "RowLadder",
+             "RowsDifferAcrossBlocks", "UnseenLateRow", "FitErrLateRow", "NdColumnMajor", "Mapper",
              "MapperUnconstrained", "MapperUnknownProbe", "Expect", "Drift"}
 
 Bad(e, clause) == PrintT(<<"BAD", l, e.run, e.ev, clause>>)
@@ -96,7 +100,21 @@ StepEncode(e) ==
         v     == EncodeVerdict(e, cats, class)
         h1    == Hit(hits, class)
         h2    == IF class = "Encode" /\ NonTrivialLayout(e, cats) THEN Hit(h1, "EncodeNonTrivial") ELSE h1
-        h3    == IF e.hasExpect THEN Hit(h2, "Expect") ELSE h2
+        n     == Len(e.X2)
+        (* a negative zero sits in a pass-through column of a same-matrix encode *)
+        h2a   == IF class = "Encode" /\ (\E pr \in Range(e.Tnz) : pr[2] \notin cats) THEN Hit(h2, "NegZeroPassThrough") ELSE h2
+        h2b   == IF class = "Encode" /\ n >= 63 THEN Hit(h2a, "RowLadder") ELSE h2a
+        (* more than 64 rows and some categorical column whose row r differs from row r - 64 *)
+        h2c   == IF class = "Encode" /\ n > 64 /\ (\E j \in cats : \E r \in 65..n : e.X2[r][j + 1] # e.X2[r - 64][j + 1])
+                 THEN Hit(h2b, "RowsDifferAcrossBlocks") ELSE h2b
+        (* the only unseen / non-integer value sits beyond row 64 *)
+        h2d   == IF class = "Unseen" /\ n > 64 /\
+                    (\A j \in cats : \A r \in 1..64 : e.T2[r][j + 1] \in Range(ColOf(e.X2, j)))
+                 THEN Hit(h2c, "UnseenLateRow") ELSE h2c
+        h2e   == IF class = "FitErr" /\ n > 64 /\ (\A j \in cats : \A r \in 1..64 : e.X2[r][j + 1] % Scale = 0)
+                 THEN Hit(h2d, "FitErrLateRow") ELSE h2d
+        h2f   == IF e.ty = "nd64" THEN Hit(h2e, "NdColumnMajor") ELSE h2e
+        h3    == IF e.hasExpect THEN Hit(h2f, "Expect") ELSE h2f
         h4    == IF e.hasExpect /\ v = "" /\ e.out2 # e.expect2 THEN Hit(h3, "Drift") ELSE h3
     IN  /\ hits' = h4
         /\ IF v = "" THEN nbad' = nbad ELSE Bad(e, v) /\ nbad' = nbad + 1
